@@ -196,7 +196,7 @@ while i < len(lines):
 
 # ---------------------------------------------------------------- values / constants
 def strip_attrs(s):
-    return re.sub(r'\b(noundef|nonnull|signext|zeroext|inreg|noalias|nocapture|readonly|writeonly|returned|immarg|nofree|nest|dso_local|local_unnamed_addr|unnamed_addr|internal|private|external|common|weak|linkonce_odr|hidden|inbounds|nsw|nuw|exact|volatile|tail|musttail|notail|align \d+|dereferenceable\(\d+\)|dereferenceable_or_null\(\d+\)|byval\([^)]*\)|sret\([^)]*\))\s*', '', s)
+    return re.sub(r'\b(noundef|nonnull|signext|zeroext|inreg|noalias|nocapture|readonly|writeonly|returned|immarg|nofree|nest|dso_local|local_unnamed_addr|unnamed_addr|internal|private|external|common|weak|linkonce_odr|hidden|inbounds|nsw|nuw|exact|volatile|tail|musttail|notail|align \d+|dereferenceable\(\d+\)|dereferenceable_or_null\(\d+\)|byval\([^)]*\)|sret\([^)]*\))(?![\w.])\s*', '', s)
 
 class Ctx: pass
 
@@ -691,7 +691,7 @@ def translate_fn(f):
                     if callee.startswith('llvm.lifetime') or callee.startswith('llvm.dbg') or callee.startswith('llvm.assume'): continue
                     if callee.startswith('llvm.memcpy') or callee.startswith('llvm.memmove'):
                         # initialising a non-escaping local from a compiler-generated constant (`struct timespec ts = {..}`) touches no shared memory
-                        if not (ptr_is_local(args[0][1], islocal, f) and re.search(r'\(&G___const_[A-Za-z0-9_]+\)', args[1][1])): stm += Y('memcpy')
+                        if not (ro_fields and ptr_is_local(args[0][1], islocal, f) and re.search(r'\(&G___const_[A-Za-z0-9_]+\)', args[1][1])): stm += Y('memcpy')
                         stm.append('memmove(%s, %s, %s); WFLAG' % (args[0][1], args[1][1], args[2][1])); continue
                     if callee.startswith('llvm.memset'):
                         stm += Y('memset'); stm.append('memset(%s, %s, %s); WFLAG' % (args[0][1], args[1][1], args[2][1])); continue
@@ -897,7 +897,7 @@ def render():
     def P(x=""): buf.append(x)
     global emitted, sdefs, lit_done, changed
     hdr = ['/* generated by vp/ll2c.py -- do not edit */', '#include <stdint.h>', '#include <stddef.h>', '#include <string.h>', '#include <stdlib.h>',
-           '#include "vp_harness.h"', 'static int vp_drain;', 'static inline _Bool __yield(void){ if(vp_drain) return 0; return IN_BOOL(); }']
+           '#include "vp_harness.h"', 'static int vp_drain;', '#ifdef VP_NATIVE', 'static inline _Bool __yield(void){ if(vp_drain || getenv("VP_NOYIELD")) return 0; return IN_BOOL(); }', '#else', 'static inline _Bool __yield(void){ if(vp_drain) return 0; return IN_BOOL(); }', '#endif']
     # struct forward decls
     for n in named: hdr.append('struct S_%s;' % cname(n))
     # global decl texts (may create lits)
